@@ -8,7 +8,7 @@ import archlib
 from core import Driver, Failure, q, ql
 
 ID = "C06"
-PROOF_MODULES = ["PyribsProofs.C06", "PyribsProofs.Cqd"]
+PROOF_MODULES = ["PyribsProofs.C06", "PyribsProofs.C06b", "PyribsProofs.Cqd"]
 THEOREMS = [
     "Pyribs.C06.sum_point_update",
     "Pyribs.C06.totalObj_applyWs",
@@ -23,6 +23,9 @@ THEOREMS = [
     "Pyribs.C06.maxInv_update",
     "Pyribs.C06.obj_max_spec",
     "Pyribs.C06.nonvacuous",
+    "Pyribs.C06b.step_monotone",
+    "Pyribs.C06b.obj_max_is_current_max",
+    "Pyribs.C06b.nonvacuous",
     "Pyribs.Cqd.score_perm_invariant",
     "Pyribs.Cqd.score_eq_formula",
     "Pyribs.Cqd.nonvacuous",
